@@ -395,20 +395,29 @@ def gen_specs(tier, seed):
 
 
 def build_gen_crate(name, gseed, ntypes, nchains):
-    """Generate the crate (deterministic in its parameters) and build it against /repo."""
-    d = os.path.join(HARNESS, "gen", name)
-    os.makedirs(d, exist_ok=True)
-    p = subprocess.run([sys.executable, os.path.join(ROOT, "gen_schemas.py"), d, str(gseed), str(ntypes), str(nchains)], stdout=subprocess.PIPE, stderr=subprocess.STDOUT, text=True)
-    if p.returncode != 0:
-        raise Inconclusive("schema generator failed: %s" % p.stdout[-800:])
-    lock = os.path.join(d, "Cargo.lock")
-    if not os.path.exists(lock):
-        shutil.copy(os.path.join(HARNESS, "Cargo.lock"), lock)
-    cargo_build([], cwd=d, env={"CARGO_TARGET_DIR": GEN_TARGET}, what="generated schema crate %s" % name)
+    """Generate the crate (deterministic in its parameters) and build it against /repo.
+    Every generated crate builds to the same <target>/release/vgen, so generation, build and
+    copy happen under one lock (two checks may run at the same time), and the copy is replaced
+    atomically (a worker of another check may be executing the old file)."""
+    import fcntl
+    os.makedirs(GEN_TARGET, exist_ok=True)
     bindir = os.path.join(GEN_TARGET, "bin")
     os.makedirs(bindir, exist_ok=True)
     dst = os.path.join(bindir, "vgen-%s" % name)
-    shutil.copy2(os.path.join(GEN_TARGET, "release", "vgen"), dst)
+    with open(os.path.join(GEN_TARGET, ".verif-build-lock"), "w") as lk:
+        fcntl.flock(lk, fcntl.LOCK_EX)
+        d = os.path.join(HARNESS, "gen", name)
+        os.makedirs(d, exist_ok=True)
+        p = subprocess.run([sys.executable, os.path.join(ROOT, "gen_schemas.py"), d, str(gseed), str(ntypes), str(nchains)], stdout=subprocess.PIPE, stderr=subprocess.STDOUT, text=True)
+        if p.returncode != 0:
+            raise Inconclusive("schema generator failed: %s" % p.stdout[-800:])
+        lock = os.path.join(d, "Cargo.lock")
+        if not os.path.exists(lock):
+            shutil.copy(os.path.join(HARNESS, "Cargo.lock"), lock)
+        cargo_build([], cwd=d, env={"CARGO_TARGET_DIR": GEN_TARGET}, what="generated schema crate %s" % name)
+        tmp = "%s.tmp%d" % (dst, os.getpid())
+        shutil.copy2(os.path.join(GEN_TARGET, "release", "vgen"), tmp)
+        os.replace(tmp, dst)
     return dst
 
 
